@@ -12,7 +12,15 @@ Theorem C09_pending_is_the_buffered_tail :
     sink_bytes (rw_sink r) ++ buffered (rw_stream r) = List.concat chunks
     /\ length (List.concat chunks) - length (sink_bytes (rw_sink r)) = length (buffered (rw_stream r)).
 Proof. intros C ctl (H1 & H2 & _). exact (pending_is_buffered ctl H1 H2). Qed.
+(* On the regenerated tokenizer table: no state that emits text at the end of a chunk can be entered with the tag
+   scanner's tag-start mark still set (may-analysis, fixpoint checked), so in ordinary text the scanner holds nothing. *)
+From LolProofs Require Import MarksAnalysis.
+Theorem C09_text_states_hold_nothing : forallb (fun st => negb (has_eoc st && marked st)) all_states = true.
+Proof. exact text_states_hold_nothing. Qed.
+Theorem C09_marks_analysis_is_a_fixpoint : forallb (fun st => Bool.eqb (marked st) (join marked (step marked) st)) all_states = true.
+Proof. exact marks_fixpoint. Qed.
 (* NOT proved here: that the length of the buffered tail is a function of the prefix alone, and the per-state bounds
    for the tag scanner; exercised by correspondence (pending bytes after every write) and oracle_c09.
    Known finding RequestLexemePending. *)
 Print Assumptions C09_pending_is_the_buffered_tail.
+Print Assumptions C09_text_states_hold_nothing.
